@@ -128,7 +128,7 @@ def check_delete_loops(rep, fm):
         Lo, Li = e.loops
         wroot = fm.norm(Lo.iter)
         pels = wroot.args[0] if isinstance(wroot, Op) and wroot.args else None
-        top_only = any(b == TRUE for b in Lo.breaks)
+        top_only = any(b == TRUE for b in Lo.stops)
         rep.check(top_only, "C11.R3.scope", "%s: the directory walk stops after the top level (unconditional break)" % tag, where, Lo.node,
                   "%s walks below the top level of the PEL directory (no unconditional break after the first os.walk entry): "
                   "files in subdirectories such as the archive are affected" % tag, node=Lo.node)
